@@ -350,6 +350,15 @@ Proof.
   pose proof forward_all as A. rewrite Forall_forall in A. now apply A.
 Qed.
 
+Theorem match_set s peer : matches (AnyOf s) peer = true <-> In peer s.
+Proof. apply (matches_iff (AnyOf s) peer). Qed.
+
+Theorem match_empty_set peer : matches (AnyOf []) peer = false.
+Proof. destruct (matches (AnyOf []) peer) eqn:E; [|reflexivity]. apply match_set in E. destruct E. Qed.
+
+Theorem sink_untransformed : sink_filter_rebindings = [] /\ sink_filter_field = "filter"%string.
+Proof. split; reflexivity. Qed.
+
 Theorem forward_misc : sink_stores_filter = true /\ ffi_filter_conversion_is_identity = true
   /\ (6 <= List.length public_ctors)%nat.
 Proof. vm_compute. repeat split. repeat constructor. Qed.
